@@ -61,6 +61,8 @@ def show(ast):
         return f"{ast[1]}({show(ast[2])})"
     if t == "pow":
         return f"({show(ast[1])})**{ast[2]}"
+    if t == "atan2":
+        return f"atan2({show(ast[1])}, {show(ast[2])})"
     op = {"add": "+", "sub": "-", "mul": "*", "div": "/"}[t]
     return f"({show(ast[1])} {op} {show(ast[2])})"
 
@@ -114,7 +116,7 @@ def is_polynomial(ast):
     t = ast[0]
     if t in ("sym", "dt", "const"):
         return True
-    if t == "fn" or t == "div":
+    if t in ("fn", "div", "atan2"):
         return False
     if t == "pow":
         return int(ast[2]) > 0 and is_polynomial(ast[1])
@@ -312,6 +314,18 @@ def _one_op_defs():
                 continue
             base = add(pw(a, 2), C(1)) if n < 0 else a
             out.append(mk(f"pow{n}-{an}", add(pw(base, n), S("x"))))
+    # the other elementary functions both back-ends print (bounded-domain ones get a quarter of the operand: |operand|/4 < 1 on the grid)
+    for f in ("asin", "acos", "atanh", "sinh", "cosh", "asinh", "acot", "sec", "csc", "cot"):
+        for an, a in operands.items():
+            if an == "const":
+                continue
+            arg = mul(C(1, 4), a) if f in ("asin", "acos", "atanh", "sinh", "cosh") else a
+            out.append(mk(f"{f}-{an}", add(fn(f, arg), S("x"))))
+    out.append(mk("atan2-state-control", add(["atan2", S("y"), S("u")], S("x"))))
+    out.append(mk("atan2-sum-cal", add(["atan2", add(S("x"), mul(DT, S("u"))), mul(S("c"), S("y"))], S("x"))))
+    # linear updates with non-dyadic rational coefficients: whole Jacobian entries are the exact rationals 1/3, 2/7, 5/3
+    out.append(mk("rational-linear", add(add(mul(C(1, 3), S("x")), mul(C(2, 7), S("y"))), mul(C(5, 3), S("u")))))
+    out.append(mk("rational-linear-cal", add(div(S("x"), C(3)), sub(mul(C(7, 9), S("c")), div(S("u"), C(6))))))
     # constants and integer results: lambdify returns Python ints here
     out.append(mk("const-int", C(2)))
     out.append(mk("const-zero", C(0)))
@@ -352,11 +366,25 @@ def _one_op_defs():
     return out
 
 
+def family_extreme():
+    """model-VALUE-only programs whose intermediates overflow in IEEE arithmetic while the value is defined and representable
+    (exp(896) = inf, 1/(1 + inf) = 0). Their symbolic derivatives evaluate to inf/inf, so they are used only where values of the
+    model itself are compared, never in filter checks."""
+    def mk(name, expr):
+        model = [["y", add(mul(S("y"), C(1, 2)), S("x"))], ["x", expr]]
+        return mkdef(f"extreme-{name}", ["y", "x"], ["u"], ["c"], model, [["c", 0.625]], [["u", 0.25]])
+    steep = mul(C(256), sub(S("x"), S("y")))
+    return [mk("steep-logistic", add(div(C(1), add(C(1), fn("exp", steep))), mul(C(1, 2), S("u")))),
+            mk("steep-logistic-shared", add(div(S("c"), add(C(1), fn("exp", steep))), div(S("u"), add(C(2), fn("exp", steep))))),
+            mk("steep-tanh-exp", add(fn("tanh", fn("exp", steep)), mul(fn("tanh", fn("exp", steep)), S("u"))))]
+
+
 def family_ops(tier):
     d = _one_op_defs()
     if tier == "quick":
         keep = [x for x in d if any(t in x["name"] for t in ("div-by-", "inv-square", "reciprocal", "neg-one", "neg-two", "atan-tan", "tan-atan",
-                                                              "log-exp", "sqrt-square", "log-square", "log-prod", "log-neg", "with-sqrt", "sqrt-sum", "of-difference", "only-", "other-state", "const-", "identity"))]
+                                                              "log-exp", "sqrt-square", "log-square", "log-prod", "log-neg", "with-sqrt", "sqrt-sum", "of-difference", "only-", "other-state", "const-", "identity",
+                                                              "atan2-", "rational-", "acot-state", "sec-control", "asin-cal", "cosh-sum", "csc-state", "cot-cal", "atanh-control", "asinh-sum", "acos-state", "sinh-cal"))]
         return d[::3] + [x for x in keep if x not in d[::3]]
     return d
 
